@@ -8,3 +8,43 @@ package aead
 
 //@ interface Cipher.Marshal(s interface{}) (string, error)
 //@   modifies nothing
+
+//@ type MiscreantCipher
+//@   typeinv nonce_is_16: nonceSize(aead.pay) == 16
+
+// N: the nonce of this call — the result of GenerateNonce, used for nothing else than this Seal.
+//@ func (c *MiscreantCipher) Encrypt(plaintext []byte) (joined []byte, err error)
+//@   requires nonceSize(c.aead.pay) == 16
+//@   modifies nothing
+//@   let N = @GenerateNonce#1
+//@   ensures [C02] sealed_with_fresh_nonce: err == nil ==> called(@GenerateNonce#1) && len(N) == 16 && called(@Seal#1) && arg(@Seal#1, 2) == N && arg(@Seal#1, 3) == plaintext && joined == seal(c.aead.pay, N, plaintext) + N
+
+// n / ct: the last 16 bytes and the rest of the input.
+//@ func (c *MiscreantCipher) Decrypt(joined []byte) ([]byte, error)
+//@   modifies nothing
+//@   let n = substr(joined, len(joined) - 16, 16)
+//@   let ct = substr(joined, 0, len(joined) - 16)
+//@   ensures [C02] too_short_rejected: len(joined) <= 16 ==> result.1 != nil && result.0 == ""
+//@   ensures [C02] opens_only_what_was_sealed: result.1 == nil ==> len(joined) > 16 && ct == seal(c.aead.pay, n, result.0)
+//@   ensures [C02] opens_what_was_sealed: len(joined) > 16 && ct == seal(c.aead.pay, n, unseal(c.aead.pay, n, ct)) ==> result.1 == nil && result.0 == unseal(c.aead.pay, n, ct)
+//@   ensures [C02] error_yields_no_data: result.1 != nil ==> result.0 == ""
+
+//@ lemmafn C02_decrypt_encrypt_roundtrip(a int, n string, p string)
+//@   requires len(n) == 16
+//@   let j = seal(a, n, p) + n
+//@   ensures [C02] split_recovers_parts: len(j) > 16 && substr(j, len(j) - 16, 16) == n && substr(j, 0, len(j) - 16) == seal(a, n, p)
+//@   ensures [C02] roundtrip: unseal(a, substr(j, len(j) - 16, 16), substr(j, 0, len(j) - 16)) == p
+
+// Marshal: the sealed form is base64url(Encrypt(gzip(json(s)))).
+//@ func (c *MiscreantCipher) Marshal(s interface{}) (string, error)
+//@   requires nonceSize(c.aead.pay) == 16
+//@   modifies nothing
+//@   ensures [C02] sealed_form: result.1 == nil ==> called(@Marshal#1) && @Marshal#1.1 == nil && arg(@Marshal#1, 0) == s && called(@Encrypt#1) && @Encrypt#1.1 == nil && arg(@Encrypt#1, 1) == gzipOf(@Marshal#1.0) && result.0 == b64enc(base64.RawURLEncoding, @Encrypt#1.0)
+//@   ensures [C02] error_yields_no_data: result.1 != nil ==> result.0 == ""
+
+// Unmarshal: nil only if the string is the canonical base64url encoding of something Decrypt opens,
+// whose gunzip decodes as JSON into s.
+//@ func (c *MiscreantCipher) Unmarshal(value string, s interface{}) error
+//@   modifies pointee(s)
+//@   ensures [C02] only_what_opens: result == nil ==> b64ok(base64.RawURLEncoding, value) && called(@Decrypt#1) && @Decrypt#1.1 == nil && arg(@Decrypt#1, 1) == b64dec(base64.RawURLEncoding, value) && called(@Unmarshal#1) && @Unmarshal#1 == nil && arg(@Unmarshal#1, 0) == gunzipOf(@Decrypt#1.0) && arg(@Unmarshal#1, 1) == s
+//@   ensures [C02] only_unmodified: result == nil ==> value == b64enc(base64.RawURLEncoding, b64dec(base64.RawURLEncoding, value))
